@@ -24,6 +24,8 @@ BATCH3 = {'C05c', 'C06c', 'C08c', 'C12c', 'C09c'}
 BATCH4 = {'C02c', 'C04c', 'C10d', 'C11d'}
 BATCH5 = {'C03d', 'C12d', 'C10e'}
 BATCH5B = {'C11e'}
+BATCH6 = {'C14c', 'C15c', 'C16c', 'C18c', 'C19c'}
+BATCH6B = {'C17c'}
 
 def main():
     for sid, (first, by, strengthened) in sorted(RESULTS3.items()):
@@ -47,9 +49,9 @@ def main():
             if '== suite WITH change' not in meta['confirmed_by_main_session']['log']:
                 meta['confirmed_by_main_session']['how'] = ('tools/seed_confirm3.sh (SKIP_SUITE=1) in the scratch worktree the agent worked in: demo run with the change (fails) and without it (passes). '
                     'The repository suite was run ONCE on a scratch worktree of /repo HEAD carrying this change TOGETHER with the other changes of its batch (they touch disjoint functions; see combined_suite_run): 405 passed, 1 failed = the baseline failure rsp_ql_dstream_semantics')
-                batch = 'suite-batch5.log' if sid in BATCH5 else 'suite-batch5b.log' if sid in BATCH5B else 'suite-batch4.log' if sid in BATCH4 else 'suite-batch3.log' if sid in BATCH3 else 'suite-batch2.log'
+                batch = 'suite-batch6.log' if sid in BATCH6 else 'suite-batch6b.log' if sid in BATCH6B else 'suite-batch5.log' if sid in BATCH5 else 'suite-batch5b.log' if sid in BATCH5B else 'suite-batch4.log' if sid in BATCH4 else 'suite-batch3.log' if sid in BATCH3 else 'suite-batch2.log'
                 meta['confirmed_by_main_session']['combined_suite_run'] = {
-                    'changes_applied_together': sorted(BATCH5) if sid in BATCH5 else sorted(BATCH5B) if sid in BATCH5B else sorted(BATCH4) if sid in BATCH4 else sorted(BATCH3) if sid in BATCH3 else sorted(BATCH2),
+                    'changes_applied_together': sorted(BATCH6) if sid in BATCH6 else sorted(BATCH6B) if sid in BATCH6B else sorted(BATCH5) if sid in BATCH5 else sorted(BATCH5B) if sid in BATCH5B else sorted(BATCH4) if sid in BATCH4 else sorted(BATCH3) if sid in BATCH3 else sorted(BATCH2),
                     'result': '\n'.join(l for l in rd('/tmp/seed3/' + batch).splitlines() if 'Summary' in l or 'FAIL [' in l)[-600:],
                 }
             meta['detection_run'] = {
